@@ -22,8 +22,8 @@
    Verdicts per case: signature, text, then (applicability, successor) per probe. *)
 From Coq Require Import List Ascii String Bool Arith PrimFloat.
 From Verif Require Import Base.Result Base.Str Base.Sexp Base.PyDict Base.Float
-  Model.Tokenizer Model.Types Model.Domain Model.Exec Model.ChangeSignature
-  Spec.Pddl Spec.Grammar Spec.Rename Proofs.C18_Check Proofs.C18_Seq Corr.Common Corr.Core.
+  Model.Tokenizer Model.Types Model.Domain Model.Exec Model.ChangeSignature Model.ChangeSignatureAlpha
+  Spec.Pddl Spec.Grammar Spec.Rename Proofs.C18_Check Proofs.C18_Seq Corr.Common Corr.Core Corr.C18Flag.
 Import ListNotations.
 Open Scope string_scope.
 Open Scope list_scope.
@@ -210,6 +210,62 @@ Fixpoint admissible_seqb (consts : list string) (ms : list (list (string * strin
 Definition ren_all (ms : list (list (string * string))) (a : action) : action :=
   fold_left (fun a m => ren_action (rho_of m) a) ms a.
 
+(* ---------- only when Corr.C18Flag.d75b_patched is set (a tree that carries proposed_fixes/D75b.diff) ----------
+   The patched library renames a quantified variable out of the way (to a fresh name) when a new parameter name equals
+   it.  The model is then Model.ChangeSignatureAlpha; the oracle compares texts up to the names of bound variables: both
+   actions are normalised (the variable of a quantifier at depth k becomes "#k", a name no renaming can produce), after
+   which Spec.Rename.ren_action cannot capture anything. *)
+Definition model_cs (m : list (string * string)) (a : maction) : result maction :=
+  if d75b_patched then change_signature_a m a else Ok (change_signature m a).
+Definition model_cs_seq (ms : list (list (string * string))) (a : maction) : result maction :=
+  foldM (fun a m => model_cs m a) ms a.
+
+Definition depth_name (k : nat) : string := "#" ++ nat_to_string k.
+Definition sub_name (sub : list (string * string)) (n : string) : string :=
+  match lookup n sub with Some x => x | None => n end.
+Fixpoint norm_nexp (sub : list (string * string)) (n : nexp) : nexp :=
+  match n with
+  | NNum x => NNum x
+  | NFl f args => NFl f (map (sub_name sub) args)
+  | NBin o a b => NBin o (norm_nexp sub a) (norm_nexp sub b)
+  end.
+Fixpoint norm_form (k : nat) (sub : list (string * string)) (f : form) : form :=
+  match f with
+  | FAtom p args => FAtom p (map (sub_name sub) args)
+  | FNotAtom p args => FNotAtom p (map (sub_name sub) args)
+  | FEq a b => FEq (sub_name sub a) (sub_name sub b)
+  | FNeq a b => FNeq (sub_name sub a) (sub_name sub b)
+  | FCmp c l r => FCmp c (norm_nexp sub l) (norm_nexp sub r)
+  | FAnd l => FAnd (map (norm_form k sub) l)
+  | FOr l => FOr (map (norm_form k sub) l)
+  | FForall v ty body => FForall (depth_name k) ty (norm_form (S k) ((v, depth_name k) :: sub) body)
+  end.
+Definition norm_prim (sub : list (string * string)) (p : prim) : prim :=
+  match p with
+  | PAdd q args => PAdd q (map (sub_name sub) args)
+  | PDel q args => PDel q (map (sub_name sub) args)
+  | PNum k f args rhs => PNum k f (map (sub_name sub) args) (norm_nexp sub rhs)
+  end.
+Definition norm_eff (e : eff) : eff :=
+  match e with
+  | EPrims es => EPrims es
+  | EWhen c es => EWhen (norm_form 0 [] c) es
+  | EForall v ty c es =>
+      EForall (depth_name 0) ty (norm_form 1 [(v, depth_name 0)] c) (map (norm_prim [(v, depth_name 0)]) es)
+  end.
+Definition norm_action (a : action) : action :=
+  if d75b_patched then
+    {| a_name := a_name a; a_params := a_params a; a_pre := norm_form 0 [] (a_pre a); a_effs := map norm_eff (a_effs a) |}
+  else a.
+
+(* admissible except that a new name may be a quantified variable of the action (the patched library makes room) *)
+Definition admissible_mod_boundb (consts : list string) (m : list (string * string)) (a : action) : bool :=
+  let rho := rho_of m in
+  let ps := params a in
+  forallb (fun kv => str_in (fst kv) ps || String.eqb (rho (fst kv)) (fst kv)) m &&
+  injective_on rho (dedup (ps ++ free_action a ++ consts)) &&
+  forallb (fun p => String.eqb (rho p) p || negb (str_in p consts)) ps.
+
 (* The recorded finding D75: the mapping is a renaming of the parameters (moves them only, injective on them)
    but sends one to the name of a quantified variable of the action or of a constant of the domain.  The library
    does not notice; the renamed action can mean something else (capture).  Such cases are JUDGED (they are
@@ -248,15 +304,20 @@ Definition judge (c : rcase) : list verdict :=
   let cap := match sa, r_more c with
              | Some (d, a), [] => negb adm && captureb (map fst (sd_consts d)) m a
              | _, _ => false end in
+  (* with the patch, a capture by a quantified variable alone is no longer a deviation: judged, not known *)
+  let made_room := match sa, r_more c with
+                   | Some (d, a), [] => d75b_patched && cap && admissible_mod_boundb (map fst (sd_consts d)) m a
+                   | _, _ => false end in
+  let known := cap && negb made_room in
   let judged := adm || cap in
-  let mr := match ma with Some (d, a) => Some (d, cs_seq ms a) | None => None end in   (* renamed once per case *)
+  let mr := match ma with Some (d, a) => Some (d, model_cs_seq ms a) | None => None end in   (* renamed once per case *)
   (* signature *)
   let v_sig :=
     {| v_agree := match ma with
                   | Some (d, a) =>
                       match mr with
-                      | Some (_, ra) => obs_eqb sig_eqb (Returned (ma_sig ra)) (r_sig c)
-                      | None => false end &&
+                      | Some (_, Ok ra) => obs_eqb sig_eqb (Returned (ma_sig ra)) (r_sig c)
+                      | _ => false end &&
                       (* every case the oracle judges lies inside the theorem: the side condition of C18_rename
                          (of C18_rename_seq for several calls) holds at every step *)
                       (negb adm || ok_seq d a ms)
@@ -265,13 +326,13 @@ Definition judge (c : rcase) : list verdict :=
                match sa with
                | Some (_, a) => obs_eqb sig_eqb (Returned (a_params (ren_all ms a))) (r_sig c)
                | None => false end;
-       v_known := cap |} in
+       v_known := known |} in
   (* text *)
   let v_txt :=
     {| v_agree := match ma, r_print1 c with
                   | Some (d, _), Returned t1 =>
                       match model_action_of_text c d (r_print0 c), model_action_of_text c d t1 with
-                      | Ok a0, Ok a1 => maction_eqv a1 (cs_seq ms a0)
+                      | Ok a0, Ok a1 => match model_cs_seq ms a0 with Ok x => maction_eqv a1 x | Err _ => false end
                       | Ok _, Err _ => negb adm     (* a foreign mapping can produce a text that is not an action *)
                       | _, _ => false
                       end
@@ -280,15 +341,15 @@ Definition judge (c : rcase) : list verdict :=
                match r_print1 c with
                | Returned t1 =>
                    match spec_action_of_text c (r_print0 c), spec_action_of_text c t1 with
-                   | Some a0, Some a1 => action_eqv a1 (ren_all ms a0)
+                   | Some a0, Some a1 => action_eqv (norm_action a1) (ren_all ms (norm_action a0))
                    | _, _ => false
                    end
                | Raised => false end;
-       v_known := cap |} in
+       v_known := known |} in
   (* probes *)
   let v_probes :=
     flat_map (fun q =>
-      let g := match mr with Some (d, ra) => ground_action d ra (q_args q) | None => Err EOther end in
+      let g := match mr with Some (d, Ok ra) => ground_action d ra (q_args q) | _ => Err EOther end in
       let consistent_probe :=
         match sa with
         | Some (d, a) => consistent (all_groups (r_eps c) (spec_tt d) (dupdate (sd_consts d) (r_objs c)) a (q_args q) (q_state q))
@@ -297,13 +358,13 @@ Definition judge (c : rcase) : list verdict :=
                       | Some (d, _) => obs_eqb Bool.eqb (m_app c d g q) (q_app1 q)
                       | None => false end;
            v_ok := negb judged || obs_eqb Bool.eqb (q_app1 q) (q_app0 q);
-           v_known := cap |};
+           v_known := known |};
         {| v_agree := negb consistent_probe ||
                       match mr with
                       | Some (d, _) => obs_eqb state_equiv (m_succ c d g q) (q_succ1 q)
                       | None => false end;
            v_ok := negb judged || negb consistent_probe || obs_eqb state_equiv (q_succ1 q) (q_succ0 q);
-           v_known := cap |} ]) (r_probes c) in
+           v_known := known |} ]) (r_probes c) in
   v_sig :: v_txt :: v_probes.
 
 Definition run (cs : list rcase) : string := t2s (map verdict_char (flat_map judge cs)).
@@ -314,13 +375,13 @@ Definition explain (c : rcase) :=
   let m := r_map c :: r_more c in
   (match md with
    | Ok d => match dget (d_actions d) (r_action c) with
-             | Some a => Some (ma_sig (cs_seq m a),
+             | Some a => Some (match model_cs_seq m a with Ok x => Some (ma_sig x) | Err _ => None end,
                                match model_action_of_text c d (r_print0 c) with
-                               | Ok a0 => Some (cs_seq m a0) | Err _ => None end,
+                               | Ok a0 => match model_cs_seq m a0 with Ok x => Some x | Err _ => None end | Err _ => None end,
                                match r_print1 c with
                                | Returned t1 => match model_action_of_text c d t1 with Ok a1 => Some a1 | Err _ => None end
                                | Raised => None end,
-                               map (fun q => let g := ground_action d (cs_seq m a) (q_args q) in
+                               map (fun q => let g := do x <- model_cs_seq m a; ground_action d x (q_args q) in
                                              (m_app c d g q, m_succ c d g q))
                                    (r_probes c))
              | None => None end
